@@ -332,7 +332,7 @@ func init() {
 		c.CaseTy = "mcase"
 		c.Report = "report"
 		c.PerFile = 6
-		c.Rule = "bundles of 1..14 files (sometimes plus 40 siblings) in directories nested up to five deep, names that are prefixes of one another, files of 0, 1, 10, 64, 65, 130 and 200 bytes with 64-byte leaves; mounted read-only streamed and pre-downloaded; 15..30 operations: lookups of present and absent names in present directories (with attributes by inode), directory listings read through buffers of 40..400 bytes and resumed at the last offset returned, reads at offsets and lengths inside, across and beyond the end of the file; non-trivial = case with a listing that needed more than one chunk, distinct by files and operations"
+		c.Rule = "bundles of 1..14 files (sometimes plus 40 siblings) in directories nested up to five deep, names that are prefixes of one another, files of 0, 1, 10, 64, 65, 130 and 200 bytes with 64-byte leaves; mounted read-only streamed and pre-downloaded; 15..30 operations: lookups of present and absent names in present directories (with attributes by inode), directory listings read through buffers of 96..4096 bytes (never smaller than one entry) and resumed at the last offset returned, reads at offsets and lengths inside, across and beyond the end of the file; non-trivial = case with a listing that needed more than one chunk, distinct by files and operations"
 		emit := func(cs *c17Case) {
 			key := ""
 			for _, o := range cs.Ops {
@@ -388,7 +388,7 @@ func init() {
 					}
 					cs.Ops = append(cs.Ops, c17Op{Kind: "lookup", Dir: d, Name: name})
 				case 1:
-					cs.Ops = append(cs.Ops, c17Op{Kind: "readdir", Dir: dirs[r.Intn(len(dirs))], Buf: []int{r.Range(40, 400), r.Range(100, 1024), 4096}[r.Intn(3)]})
+					cs.Ops = append(cs.Ops, c17Op{Kind: "readdir", Dir: dirs[r.Intn(len(dirs))], Buf: []int{r.Range(96, 400), r.Range(100, 1024), 4096}[r.Intn(3)]})
 				default:
 					f := cs.Files[r.Intn(len(cs.Files))]
 					d, name := "", f.Name
